@@ -90,8 +90,10 @@ class Recorder:
 
   # -- enumeration bookkeeping -------------------------------------------------------------
   def want(self, key) -> bool:
-    """False when replaying and this is not the recorded case."""
-    return self.only is None or jsonable(key) == self.only
+    """Always True: a replay re-executes the WHOLE unit of the recorded case and run.py filters the violations by
+    key.  (Skipping the other cases of the unit made oracles that compare two cases -- e.g. "all solve methods
+    agree" -- irreproducible under replay, which showed up as a HARNESS-ERROR on a C03 mutant.)"""
+    return True
 
   def case(self, key, *, transitions=1, outcome=None, nontrivial=True, sample=None, validated=1):
     """Registers one explored state (canonical key) on which the oracle is evaluated."""
